@@ -109,7 +109,20 @@ func drawSpec(r *rng, name string, b specBias) *genParser {
 		if r.intn(100) < b.optimized {
 			flags = append(flags, "-optimize-parser")
 		}
-		if r.chance(1, 3) {
+		foldedUClass := false
+		for _, rl := range g.Rules {
+			gen.Walk(rl.Expr, func(e *gen.Expr) {
+				if e.Kind == gen.Class && e.Fold && len(e.UClass) > 0 {
+					foldedUClass = true
+				}
+			})
+		}
+		// (observation O6: with -optimize-basic-latin a case-insensitive class does
+		// not fold ASCII letters into its \p classes - `[\p{Ll}]i` rejects "A" - so
+		// the parser matches differently from the language definition the model
+		// implements; that is another property's subject, such grammars are
+		// generated without the flag)
+		if r.chance(1, 3) && !foldedUClass {
 			flags = append(flags, "-optimize-basic-latin")
 		}
 		if r.chance(1, 4) {
